@@ -639,6 +639,10 @@ func (r *FnRun) modTargets(fr *Frame, ctx *EvalCtx, e Expr, add func(comp string
 			ctx.fail("unsupported modifies target %s", ExprString(e))
 		}
 	case EIdent:
+		if e.Name == "chanState" {
+			add(chanClosedComp, Term{}, true)
+			return
+		}
 		if v, ok := ctx.vars["&"+e.Name]; ok {
 			el := v.Ty.(*types.Pointer).Elem()
 			add(boxComp(el), v.T, false)
